@@ -29,7 +29,7 @@ SEARCHABLE = {"C01": "all byte strings over {a : / % C3 A9 FF} up to 4 bytes: ow
               "C02": "all valid references over {a : / ? # @} up to 6 bytes (both families)",
               "C03": "all valid authorities over {a : @ [ ] 1} up to 6 bytes (both families)",
               "C20": "the C02, C03 and C12 enumerations (placement of the returned slices inside the input)",
-              "C12": "all valid paths over {a / .} up to 7 bytes (forward, backward and alternating iteration, path queries)",
+              "C12": "all valid paths over {a / .} up to 7 bytes, both families (forward, backward and alternating iteration; first / last / file_name / directory / parent / parent_or_empty / is_empty / is_absolute / is_relative / segment_count / normalized_segments().len())",
               "C09": "all valid paths over {a / .} up to 7 bytes (normalized segment sequence) and in-place normalize on every reference over {a : / ? .} up to 5 bytes (segment sequence up to the shield, idempotence, kind, frame, re-parse)",
               "C04": "the C05, C10 and C11 enumerations: every edit leaves a text the real parser accepts again",
               "C05": "every reference over {a : / ? #} up to 5 bytes x the five setters x 2-11 values each: re-parse, requested component read back, others byte-identical, path only changed by the three documented disambiguations",
@@ -39,7 +39,7 @@ SEARCHABLE = {"C01": "all byte strings over {a : / % C3 A9 FF} up to 4 bytes: ow
               "C08": "same pairs as C07: == vs cmp == Equal, antisymmetry, hasher feeds of equal values and of the views of one value (recording hasher)",
               "C13": "all IRI references over {a : / ? #} up to 5 bytes + 5 non-ASCII texts: outcome and text of 20 conversions, and the value inside the error of the 5 owned conversions that can fail",
               "C18": "'data:' + every text over {a ; , / b} up to 6 bytes, plus ~160 texts containing ';base64,' in header and data positions: scanner vs the shape oracle, parts vs borrowed accessors",
-              "C19": "all component texts over {a % 4 1 ? /} up to 4 bytes whose decoded octets are UTF-8: text, decoding and length of the as_pct_str view of Query / Fragment / Segment / Host / UserInfo of both families",
+              "C19": "all component texts over {a % 4 1 ? /} up to 4 bytes whose decoded octets are UTF-8: text, decoding and length of the as_pct_str view of Query / Fragment / Segment / Host / UserInfo of both families and of into_pct_string of the eight owned component types",
               "C16": "all URIs over {a : / ? #} up to 6 bytes (base) and all pairs of paths over {a / .} up to 5 bytes (suffix)"}
 
 
